@@ -14,7 +14,7 @@ package commitlog
 //@ pure func sumSize(s []*segment, lo int, hi int) int64 = lo >= hi ? 0 : size(s[lo]) + sumSize(s, lo+1, hi)
 //@ pure func segsOK(s []*segment) bool = forall j int :: 0 <= j && j < len(s) ==> s[j] != nil && s[j].Index != nil && s[j].Index.position >= 0 && s[j].position >= 0
 
-//@ func (*index).CountEntries serves C09
+//@ func (*index).CountEntries serves C09, C08, C10, C11
 //@   requires idx != nil && idx.position >= 0
 //@   safety
 //@   modifies nothing
@@ -483,3 +483,25 @@ package commitlog
 //@   requires c != nil
 //@   ensures [single-segment-untouched] len(segments) <= 1 ==> out == segments && err == nil
 //@   call compact requires [whole-log] len(segments) >= 2 && arg1 == hw && arg2 == segments
+
+// ---------------------------------------------------------------------------------------------
+// Reverse reads (properties C08, C10, C11): a reverse scan of a segment from offset o starts at the last index
+// entry whose offset is <= o - on a compacted segment the index is dense but the offsets are sparse.
+//
+// entryOffAt(idx, i): the offset recorded in slot i of the index (what ReadEntryAtLogOffset decodes; assumed)
+//@ pure func entryOffAt(idx *index, i int64) int64
+//@ pure func entryCount(idx *index) int64 = idx.position / 20
+//@ assume func (*index).ReadEntryAtLogOffset
+//@   modifies e.Offset, e.Timestamp, e.Position, e.Size
+//@   ensures (result == nil) <==> (0 <= logOffset && logOffset < entryCount(idx))
+//@   ensures result == nil ==> e.Offset == entryOffAt(idx, logOffset)
+//@ func newReverseIndexScanner serves C08, C10, C11
+//@   ensures result != nil && fresh(result) && result.idx == idx && result.offset == startOffset
+//@ func newReverseSegmentScanner serves C08, C10, C11
+//@   requires segment != nil && segment.Index != nil && segment.Index.position >= 0
+//@   assumes forall i int64, j int64 :: 0 <= i && i < j && j < entryCount(segment.Index) ==> entryOffAt(segment.Index, i) < entryOffAt(segment.Index, j)
+//@   ensures [scans-this-segment] result != nil && result.s == segment && result.ris != nil && result.ris.idx == segment.Index
+//@   ensures [slot-in-range] -1 <= result.ris.offset && result.ris.offset < entryCount(segment.Index)
+//@   ensures [starts-at-last-entry-at-or-below] forall i int64 :: 0 <= i && i < entryCount(segment.Index) ==> ((i <= result.ris.offset) <==> (entryOffAt(segment.Index, i) <= startOffset))
+//@ func newReverseSegmentScanner$1 serves C08, C10, C11
+//@   ensures result == (i < 0 || i >= entryCount(segment.Index) || entryOffAt(segment.Index, i) > startOffset)
